@@ -21,7 +21,7 @@ REQUIRED = ["prep_checked:dominion", "prep_checked:hart", "prep_rejections_check
             "cvrs_checked:hart", "sample_numbers_mapped", "phantom_cards_sampled"]
 ASSUMPTIONS = ["unique (tabulator, batch) labels per manifest", "Dominion lookup is 1-based, Hart lookup 0-based, as each "
                "vendor module documents and its test pins", "phantom CVR ids use the documented prefix 'phantom-1-'"]
-N_CASES = {"quick": 2400, "thorough": 60000}
+N_CASES = {"quick": 8000, "thorough": 64000}
 SIZES = (0, 1, 2, 3, 7, 100)
 
 
